@@ -179,7 +179,7 @@ func c13Run(prefix []int, mode string, opsA, opsB []string) explore.Outcome {
 		for i, p := range peers {
 			p.P.Headers["X-Tok"] = toks[i]
 			if err := p.Handshake(); err != nil {
-				viol = append(viol, V("harness", "%v", err))
+				viol = append(viol, V("setup-handshake-fails", "setting the scenario up with well-behaved peers fails: %v", err))
 				return
 			}
 		}
